@@ -1,5 +1,5 @@
 """Per-property checks."""
-import os, re, json
+import collections, os, re, json
 import common, seqsuite
 
 READ_OPS = {'pop', 'popmove', 'peek', 'peekslice', 'peekavail', 'copyitem', 'cloneitem', 'copyslice', 'cloneslice'}
@@ -161,6 +161,24 @@ SEQ_TEXT = ('Theorems (Coq, all lengths / states / histories): the Model refines
 CHECKS = {}
 for pid, pred in (('C01', is_c01), ('C04', is_c04), ('C05', is_c05), ('C06', is_c06), ('C11', is_c11), ('C12', is_c12), ('C18', is_c18)):
     CHECKS[pid] = SeqCheck(pid, pred, SEQ_TEXT % pid)
+class ResetDetachCheck(SeqCheck):
+    """C11 / C12: the sequential refinement plus the scripted executions of the reset / detached machine (RAx) on the real crate"""
+    def __init__(self, prop, pred, text):
+        super().__init__(prop, pred, text)
+        self.script_bad = []
+        self.extra = lambda ctx, seqrun, stats, divs: run_script_suite(self, ctx, stats, machines=('x',))
+    def decide(self, ctx, divs, proof_broken, log):
+        mine = [d for d in divs if d.kind == 'spec' and self.pred(d)]
+        if self.script_bad and not mine:
+            what, text, path = min(self.script_bad, key=lambda b: len(b[1]))
+            word = 'reset' if ctx.prop == 'C11' else 'detach'
+            ctx.violation(f'an execution of the proved reset / detached machine (RAx: interleaving + stale reads) does not replay on the real crate: {what} ({len(self.script_bad)} cases)',
+                          '## S-script case (replay: .build/cargo/debug/concrun2 <file with this case>)\n' + text, no_input=(f'cmd C {word}' not in text))
+            return
+        super().decide(ctx, divs, proof_broken, log)
+for pid, pred in (('C11', is_c11), ('C12', is_c12)):
+    CHECKS[pid] = ResetDetachCheck(pid, pred, SEQ_TEXT % pid + ' Under concurrency: theorems on the release/acquire machine RAx (race freedom, never backwards, published <= local); '
+                                   'tie: S-script, executions of the extracted machine replayed on the real crate with OS threads.')
 def c04_safe_ops(ctx, seqrun, stats, divs):
     """the sentence `no safe operation moves an iterator past the iterator ahead`: safe methods whose contract fails"""
     for key, lst in sorted(stats.safe_breaks.items()):
@@ -442,6 +460,72 @@ WITNESS = {
                'drop protocol, two iterators: both make their last access, both clear their bit with a relaxed RMW, the last one frees without having synchronised with the other\'s last access'),
 }
 
+def run_script_suite(self, ctx, stats, machines=('2n', '3n', 'x')):
+    """S-script: executions of the proved release/acquire machine (RAn, extracted) - interleavings and STALE reads chosen by the
+    machine - replayed on the real crate with two OS threads under a scripted scheduler (harness/src/bin/concrun.rs)"""
+    self.script_bad = []
+    bindir, log = ctx.build_harness(('concrun', 'concrun2'))
+    if bindir is None:
+        self.script_bad.append(('concrun does not build against the current /repo tree', log[-3000:], None)); return
+    with common.Lock('coq'):
+        rc, out = ctx._make(['Conc/RA3n.vo', 'Conc/RAx.vo'])
+        if rc != 0:
+            self.script_bad.append(('the machines RA3n / RAx no longer compile', out[-3000:], None)); return
+        def stale(target, srcs):
+            return not os.path.exists(target) or os.path.getmtime(target) < max(os.path.getmtime(x) for x in srcs)
+        O = common.OCAML
+        if stale(os.path.join(O, 'cmodel.ml'), [os.path.join(common.COQ, x) for x in ('Conc/RA3n.vo', 'Conc/RAx.vo', 'Extract/ExtractConc.v')]):
+            rc, out = common.sh(['coqc', '-Q', common.COQ, 'MRB', os.path.join(common.COQ, 'Extract/ExtractConc.v')], cwd=O)
+            if rc != 0:
+                self.script_bad.append(('extraction of RA3n / RAx fails', out[-3000:], None)); return
+        for exe, model, drv in (('concmodel', 'model', 'concdriver'), ('concmodel2', 'cmodel', 'concdriver2')):
+            if stale(os.path.join(O, exe), [os.path.join(O, x) for x in (model + '.ml', model + '.mli', drv + '.ml')]):
+                rc, out = common.sh(f'ocamlfind ocamlopt -O2 -w -a {model}.mli {model}.ml {drv}.ml -o {exe}', cwd=O)
+                if rc != 0:
+                    self.script_bad.append((exe + ' does not build', out[-3000:], None)); return
+    n = 300 if ctx.tier == 'quick' else 20000
+    shards = 4 if ctx.tier == 'quick' else 16
+    total = ok = events = 0
+    kinds = collections.Counter()
+    jobs = []
+    for k in range(shards):
+        sd = str(int(ctx.seed) * 100 + k)
+        jobs.append(('2n', 'concmodel', ['gen', sd, str(n // shards), '9'], 'concrun', k))
+        jobs.append(('3n', 'concmodel2', ['gen3', sd, str(n // shards), '7'], 'concrun2', k))
+        jobs.append(('x', 'concmodel2', ['genx', sd, str(n // shards), '7'], 'concrun2', k))
+    for kind, gen, gargs, runner, k in jobs:
+        if kind not in machines: continue
+        path = os.path.join(ctx.work, f'script-{kind}-{k}.cases')
+        rc, out = common.sh([os.path.join(common.OCAML, gen)] + gargs)
+        out = '\n'.join(l for l in out.split('\n') if l.startswith(('case ', 'op ', 'ev ', 'res ', 'cmd ', 'jump ', 'final ', 'end')) or l == '') 
+        open(path, 'w').write(out)
+        rc, res = common.sh([os.path.join(bindir, runner), path], timeout=1800)
+        cases = out.split('end\n')
+        for line in res.splitlines():
+            m = re.match(r'case (\d+) (ok|MISMATCH)(.*)', line)
+            if not m: continue
+            total += 1; kinds[kind] += 1
+            if m.group(2) == 'ok':
+                ok += 1
+                e = re.search(r'events=(\d+)', line); events += int(e.group(1)) if e else 0
+            else:
+                cid = int(m.group(1))
+                text = next((c for c in cases if c.lstrip().startswith(f'case {cid} ')), '')
+                what = f'[{kind}] ' + m.group(3).strip()
+                if 'timeout' in what:
+                    # a wait that ran into the 3 s limit may be scheduling noise on a loaded machine: the case counts only if it
+                    # fails again when replayed alone
+                    one = os.path.join(ctx.work, f'script-{kind}-{k}-retry{cid}.cases'); open(one, 'w').write(text + 'end\n')
+                    again = [common.sh([os.path.join(bindir, runner), one], timeout=600)[1] for _ in range(2)]
+                    if not all('MISMATCH' in a for a in again):
+                        ok += 1; ctx.notes.setdefault('script_timeouts_not_reproduced', []).append(cid); continue
+                self.script_bad.append((what, text + 'end\n', path))
+        if rc not in (0, 1) and not self.script_bad:
+            self.script_bad.append((f'{runner} exited with code {rc}', res[-2000:], path))
+    ctx.notes['script_suite'] = {'cases': total, 'ok': ok, 'atomic_events': events, 'per_machine': dict(kinds),
+                                 'generator': 'concmodel gen (extracted RAn.step_a), concmodel2 gen3 / genx (extracted RA3n.step3_a, RAx.step_a); stale reads via pick'}
+    stats.histories += total; stats.steps += events
+
 class ConcCheck(SeqCheck):
     def __init__(self, prop, pred, text):
         super().__init__(prop, pred, text)
@@ -449,52 +533,8 @@ class ConcCheck(SeqCheck):
         self.extra = self.script_suite
         self.script_bad = []
     def script_suite(self, ctx, seqrun, stats, divs):
-        """S-script: executions of the proved release/acquire machine (RAn, extracted) - interleavings and STALE reads chosen by the
-        machine - replayed on the real crate with two OS threads under a scripted scheduler (harness/src/bin/concrun.rs)"""
-        self.script_bad = []
         if ctx.prop == 'C07': return
-        bindir, log = ctx.build_harness(('concrun',))
-        if bindir is None:
-            self.script_bad.append(('concrun does not build against the current /repo tree', log[-3000:], None)); return
-        with common.Lock('coq'):
-            cm = os.path.join(common.OCAML, 'concmodel')
-            src = [os.path.join(common.OCAML, x) for x in ('model.ml', 'model.mli', 'concdriver.ml')]
-            if not os.path.exists(cm) or os.path.getmtime(cm) < max(os.path.getmtime(x) for x in src):
-                rc, out = common.sh('ocamlfind ocamlopt -O2 -w -a model.mli model.ml concdriver.ml -o concmodel', cwd=common.OCAML)
-                if rc != 0:
-                    self.script_bad.append(('concmodel does not build', out[-3000:], None)); return
-        n = 300 if ctx.tier == 'quick' else 20000
-        shards = 4 if ctx.tier == 'quick' else 16
-        total = ok = events = 0
-        for k in range(shards):
-            path = os.path.join(ctx.work, f'script{k}.cases')
-            rc, out = common.sh([cm, 'gen', str(int(ctx.seed) * 100 + k), str(n // shards), '9'])
-            open(path, 'w').write(out)
-            rc, res = common.sh([os.path.join(bindir, 'concrun'), path], timeout=1800)
-            cases = out.split('end\n')
-            for line in res.splitlines():
-                m = re.match(r'case (\d+) (ok|MISMATCH)(.*)', line)
-                if not m: continue
-                total += 1
-                if m.group(2) == 'ok':
-                    ok += 1
-                    e = re.search(r'events=(\d+)', line); events += int(e.group(1)) if e else 0
-                else:
-                    cid = int(m.group(1))
-                    text = next((c for c in cases if c.startswith(f'case {cid} ')), '')
-                    what = m.group(3).strip()
-                    if 'timeout' in what:
-                        # a wait that ran into the 3 s limit may be scheduling noise on a loaded machine: the case counts only if it
-                        # fails again when replayed alone
-                        one = os.path.join(ctx.work, f'script{k}-retry{cid}.cases'); open(one, 'w').write(text + 'end\n')
-                        again = [common.sh([os.path.join(bindir, 'concrun'), one], timeout=600)[1] for _ in range(2)]
-                        if not all('MISMATCH' in a for a in again):
-                            ok += 1; ctx.notes.setdefault('script_timeouts_not_reproduced', []).append(cid); continue
-                    self.script_bad.append((what, text + 'end\n', path))
-            if rc not in (0, 1) and not self.script_bad:
-                self.script_bad.append((f'concrun exited with code {rc}', res[-2000:], path))
-        ctx.notes['script_suite'] = {'cases': total, 'ok': ok, 'atomic_events': events, 'generator': 'concmodel gen (extracted RAn.step_a, stale reads via Model.pick)'}
-        stats.histories += total; stats.steps += events
+        run_script_suite(self, ctx, stats)
     def suites(self, ctx):
         s = ctx.seed
         if ctx.tier == 'quick':
@@ -546,7 +586,7 @@ class ConcCheck(SeqCheck):
             what, text, short = script
             ctx.violation(f'an execution of the proved release/acquire machine (interleaving + stale reads) does not replay on the real crate: {what} '
                           f'({len(self.script_bad)} cases)',
-                          '## S-script case (replay: .build/cargo/debug/concrun <file with this case>)\n' + text, no_input=not short)
+                          '## S-script case (replay: .build/cargo/debug/concrun <file with this case>; kinds [3n] / [x]: concrun2)\n' + text, no_input=not short)
             return
         if mine:
             d = self.minimise(ctx, min(mine, key=lambda d: len(d.prefix())))
